@@ -786,6 +786,13 @@ def execute(sc):
                                    [w.unsubst(r) for r in roots]))
         if n_inside:
             core.bump(res['probes'], 'opened-inside-root')
+        if sc.get('style') == 'drive':
+            core.bump(res['probes'], 'drive-prefix-name')
+        if sc['layout'] == 'carts-lookalike':
+            core.bump(res['probes'], 'tree-merely-named-like-a-carts-folder')
+        if lp['how'] == 'env+arg' and sc.get('S') in (
+                'lib1', 'pkg', 'lib1/lib1', 'pkg/init'):
+            core.bump(res['probes'], 'aimed-at-the-environment-path-not-in-force')
         if failed:
             core.bump(res['probes'], 'rejected-or-failed')
             core.bump(res['faults'], 'REJECTED')
@@ -1178,6 +1185,12 @@ def execute_splice(sc):
         if sc.get('prelude'):
             _prelude_failed_load(w, sc, res)
         sc = dict(sc, lines=_flat_lines(sc['lines']))
+        if sc.get('fake_tab_separator'):
+            core.bump(res['probes'], 'tab-separator-text-inside-a-multi-line-token')
+        if sc.get('big_include'):
+            core.bump(res['probes'], 'include-file-larger-than-64KiB')
+        if any('\\' in tg['rel'] for tg in sc['targets']):
+            core.bump(res['probes'], 'backslash-in-a-target-name')
         views = [sc]
         if sc.get('second'):
             views.append(dict(sc, targets=sc['second']['targets'],
